@@ -545,7 +545,8 @@ def run_x11(chk, repo):
             continue
         # the statement that replaces the effect statement just appended: statements[-1] = Assignment.create(sym, expr)
         a = nd.ast
-        if not (isinstance(a, ast.Assign) and isinstance(a.targets[0], ast.Subscript) and isinstance(a.value, ast.Call)
+        # ... or re-binds the variable that holds it: effect_statement = Assignment.create(effect_statement.symbol, ..)
+        if not (isinstance(a, ast.Assign) and isinstance(a.targets[0], (ast.Subscript, ast.Name)) and isinstance(a.value, ast.Call)
                 and (dotted(a.value.func) or '').startswith('Assignment') and len(a.value.args) == 2):
             continue
         try:
